@@ -140,6 +140,25 @@ impl<const R1: usize, const R2: usize, const A: usize> ExactSizeIterator for Fir
         base.saturating_sub(self.0.i)
     }
 }
+/// the fat constructor asked more than once: first answer R1, every later answer R2
+fn lying_fat_changing<const R1: usize, const R2: usize, const A: usize>() {
+    let it = Liar::<R1, R2, A>::new();
+    let vals = it.vals;
+    unsafe { QUESTIONS = 0 };
+    kani::cover!(true, "constructor reached");
+    let a = Arc::from_header_and_iter(Dt::new(0, 9), FirstThenRest(it));
+    right_value::<A>(&a.header, &a.slice, &vals);
+    assert!(R1 == A, "a lie about the length went unnoticed (the block was sized by the first answer)");
+    drop(a);
+    assert!(ledger_is(0, A + 1) && n_live() == 0);
+}
+macro_rules! fat_changing {
+    ($($name:ident $r1:expr, $r2:expr, $a:expr;)*) => {$( hp!($name, lying_fat_changing::<$r1, $r2, $a>()); )*};
+}
+fat_changing! {
+    qp_fatc_r1_r3_a3 1, 3, 3;  qp_fatc_r2_r1_a2 2, 1, 2;  qp_fatc_r2_r3_a2 2, 3, 2;
+    r0p_fatc_r0_r2_a2 0, 2, 2; r1p_fatc_r3_r1_a1 3, 1, 1; r2p_fatc_r1_r2_a1 1, 2, 1;
+}
 macro_rules! thin_triples {
     ($($name:ident $r1:expr, $r2:expr, $a:expr;)*) => {$( hp!($name, lying_thin::<$r1, $r2, $a>()); )*};
 }
